@@ -179,6 +179,10 @@ def v2_property(pid, tier, cfgs, cont, nontrivial, rule, level="model_checking",
                 log("[%s] v1 %s: recorded, %d scheduler events, %.1fs" % (pid, c1["name"], rec["sched_events"], rec["wall"]))
                 v1recs.append((c1, rec))
                 files.append(rec["obs"])
+                if rec["spin"] is None:
+                    conf = conformance_v1(v, sc, binary, c1, rec)
+                    log("[%s] %s: trace validation: %d traces, %d drift" % (pid, c1["name"], conf["traces"], conf["drift"]))
+                    v.cov.setdefault("conformance", {})[c1["name"]] = conf
                 if rec["spin"]:
                     v.notes.append("spin detected in %s (verdict of C16)" % c1["name"])
         lap("v1 records done")
@@ -568,6 +572,36 @@ def record_simple(binary, sc, cfg, runs, timeout=900):
     return dict(obs=f, races=races_in(out), spin=spin, wall=wall)
 
 
+def conformance_v1(v, sc, binary, cfg, rec):
+    """code -> spec: TLC validates the gated prefix of every recorded v1 trace against PrioV1 (Trace_PrioV1); returns drift info"""
+    sub = os.path.join(sc, "t-" + cfg["name"])
+    os.makedirs(sub, exist_ok=True)
+    stage_specs(sub)
+    tcfg = dict(cfg, adds=cfg.get("adds", []), rmvs=cfg.get("rmvs", []), stop=True, cancel=True, graceful=True)
+    cfgp, rows = pm.div_table(binary, cfg, sub)
+    name = pm.write_mc_v1(sub, tcfg, rows, invariants=["NotStuck", "TraceInvariants"], spec="TSpec", module="Trace_PrioV1", prefix="TR_")
+    shutil.copy(rec["all"], os.path.join(sub, "trace.ndjson"))
+    r = tlc(sub, name, cfg=name + ".cfg", workers=8, timeout=1500, extra=["-continue"])
+    tool_errors = [l for l in r.out.splitlines() if l.startswith("Error:") and "Invariant" not in l and "behavior up to this point" not in l]
+    if not r.finished or r.distinct == 0 or tool_errors:
+        raise Inconclusive("trace validation TLC failed on %s: %s\n%s" % (name, tool_errors[:2], r.out[-3000:]))
+    v.add_tlc(r, name + " (trace validation of recorded v1 runs against PrioV1)")
+    stuck = {}
+    for inv, t0 in parse_violations(r.out, "t0"):
+        stuck.setdefault(inv, set()).add(t0)
+    # where did each stuck trace stop?
+    where = []
+    if stuck.get("NotStuck"):
+        blocks = r.out.split("Error: Invariant NotStuck is violated")
+        for b in blocks[1:4]:
+            m = re.findall(r"/\\ l = (\d+)", b)
+            if m:
+                where.append(int(m[-1]) + 1)
+    n_traces = sum(1 for line in open(rec["all"]) if line.startswith('{"H"') or '"e":"Reset"' in line[:400])
+    return dict(traces=n_traces, drift=len(stuck.get("NotStuck", ())), spec_invariant_hits=len(stuck.get("TraceInvariants", ())),
+                first_unexplained=[json.loads(open(rec["all"]).readlines()[w - 1]) for w in where][:3])
+
+
 def v1_property(pid, tier, kinds, nontrivial, rule, level="model_checking", models=None, runs=(250, 4000), simple=False, extra=None):
     v = Verdict(pid, tier, level)
     with Scratch(pid.lower() + "v1") as sc:
@@ -582,6 +616,10 @@ def v1_property(pid, tier, kinds, nontrivial, rule, level="model_checking", mode
                 log("[%s] %s: recorded, %d scheduler events, %.1fs%s" % (pid, cfg["name"], rec["sched_events"], rec["wall"], " SPIN" if rec["spin"] else ""))
                 recs.append((cfg, rec))
                 files.append(rec["obs"])
+                if rec["spin"] is None:
+                    conf = conformance_v1(v, sc, binary, cfg, rec)
+                    log("[%s] %s: trace validation: %d traces, %d drift" % (pid, cfg["name"], conf["traces"], conf["drift"]))
+                    v.cov.setdefault("conformance", {})[cfg["name"]] = conf
                 if rec["spin"]:
                     v.violation("C16: after Stop() the scheduling goroutine spins without ever blocking and Stop() never returns (config %s, run %s, seed %s)"
                                 % (cfg["name"], rec["spin"]["marker"].get("run"), rec["spin"]["marker"].get("seed")),
